@@ -48,3 +48,23 @@ package snapshot
 
 //@ func NewDBIFromData
 //@   nopanic
+
+//@ func (d *DBI) Name
+//@   inline
+//@ func (d *DBI) Flags
+//@   inline
+//@ func (d *DBI) Transform
+//@   inline
+
+//@ func TransformSupported
+//@   nopanic
+//@   pure
+//@   ensures table: iff(r0, transform == "" || transform == "dupsort_hack_v1")
+
+// Decision table of transform validation (transform x native schema x format >= 3 x dupsort flag).
+//@ func (d *DBI) ValidateTransform
+//@   nopanic
+//@   pure
+//@   let dup = d.flags & 4 != 0
+//@   let hack = d.transform == "dupsort_hack_v1"
+//@   ensures table: iff(r0 == nil, (d.transform == "" || hack) && !(nativeSchema && d.transform != "") && (formatVersion >= 3 ==> iff(dup, hack)))
